@@ -37,6 +37,8 @@ def _setup(spec):
         args = (model, x0, p0, rho0)
         if spec["cls"] == "TrajectorySH":
             kw["zeta_list"] = [float(z) for z in spec["zetas"]]
+        if spec.get("integ"):
+            kw["electronic_integration"] = spec["integ"]
     return model, cls, args, kw
 
 
@@ -106,6 +108,8 @@ def run_case(spec, repair_gauge=False):
         log = load_log(main)
         n_before = len(log)
         opts = dict(_limits(spec))
+        if spec.get("integ") and spec["cls"] != "AdiabaticMD":
+            opts["electronic_integration"] = spec["integ"]       # (an option of the run, handed to the restart as any other)
         if spec["cls"] == "TrajectorySH":
             opts["zeta_list"] = [float(z) for z in spec["zetas"]][k:]
         gauge_differs = False
@@ -223,6 +227,10 @@ def run(ctx):
             spec = dict(cls="TrajectorySH", builtin=["simple", "dual"][i % 2], x0=-1.5, p0=float(rng.uniform(14, 22)), N=2, n=1, model_seed=1,
                         dt=10.0, t0=0.0, K=K, rule="max_steps", pitch=int(rng.integers(1, 9)),
                         zetas=[float(v) for v in 0.02 * rng.random(K + 4)], many_restarts=True)
+            if (i - nrandom) % 2 == 1:
+                spec["integ"] = "linear-rk4"        # the interpolating integrator: nothing it keeps between steps may outlive a hop
+        elif cls != "AdiabaticMD" and i % 5 == 4:
+            spec["integ"] = "linear-rk4"
         K = spec["K"]
         ks = range(1, K) if (ctx.thorough() or spec.pop("many_restarts", False)) else sorted(set(int(v) for v in rng.integers(1, K, size=3 if K < 20 else 8)))
         for k in ks:
